@@ -1,3 +1,5 @@
+//verif:v2only (root-module instantiation pending: API differences)
+
 package codecprops
 
 // C04 (codec level) - decoder robustness: no byte sequence or untyped Go value makes a reader, a
